@@ -12,6 +12,7 @@ From Coq Require Import List NArith ZArith Arith Lia.
 From Iodine Require Import Base Codec CodecProofs Hostname DnsName DnsNameProofs DnsMsg Domain
   DomainProofs HostnameProofs Properties_C07.
 From Iodine Require Server DomainDispatchProofs.
+From Iodine Require Import Startup StartupProofs.
 Import ListNotations.
 Local Open Scope N_scope.
 
@@ -184,6 +185,16 @@ Proof.
   apply DomainDispatchProofs.tunnel_dns_inside_tunnel_rr; [rewrite Hn; exact Hq|exact Ht|exact Hns|exact Hwww].
 Qed.
 Print Assumptions C08_dispatcher_hands_on_data_part.
+
+(* the configured limit L itself: main() of iodine.c hands the value of the last -M, clamped to 10..255, to the client
+   (255 without -M), and no other option takes part (startup stage of checks/mainlib.py on the real main()) *)
+Theorem C08_configured_limit :
+  (forall ms, (10 <= startup_maxlen ms <= 255)%Z) /\
+  (forall ms m, startup_maxlen (ms ++ [m]) = clamp_maxlen m) /\
+  (forall m, (10 <= m <= 255)%Z -> clamp_maxlen m = m) /\
+  startup_maxlen [] = 255%Z.
+Proof. exact (conj startup_maxlen_range (conj startup_maxlen_last (conj clamp_maxlen_id eq_refl))). Qed.
+Print Assumptions C08_configured_limit.
 
 (* ---- the client's builders --------------------------------------------------------------- *)
 
